@@ -2,7 +2,7 @@
    a case is an operation name and a list of generic arguments; the answer is a generic
    output value.  The OCaml driver (eval/driver.ml) only parses / prints these types. *)
 From Coq Require Import String.
-From ArrRs Require Import Base Arr Index Axis Broadcast Lift Split Reduce Sort Join Reorder Edit Bits.
+From ArrRs Require Import Base Arr Index Axis Broadcast Lift Split Reduce Sort Join Reorder Edit Bits Linalg.
 Open Scope string_scope.
 Open Scope list_scope.
 
@@ -417,9 +417,20 @@ Definition table_bits : list (string * (list arg -> out)) :=
        | [AZ w; AZ n] => OL (binary_repr (Z.to_nat w) n) | _ => OBad end)
   ].
 
+(* ---- C14: products (exact Z instance); `matmul` / `dot` answer with the specified behaviour, the *_pinned names
+   with the repository's pinned rows(a) = cols(b) comparison ---- *)
+Definition zz2 (f : arr Z -> arr Z -> res (arr Z)) (args : list arg) : out :=
+  match args with [AA s1 e1; AA s2 e2] => orarr (f (mka s1 e1) (mka s2 e2)) | _ => OBad end.
+
+Definition table_linalg : list (string * (list arg -> out)) :=
+  [ ("vdot", zz2 (vdot 0%Z Z.add Z.mul)); ("inner", zz2 (inner 0%Z Z.add Z.mul)); ("outer", zz2 (outer Z.mul))
+  ; ("matmul", zz2 (matmul 0%Z Z.add Z.mul false)); ("matmul_pinned", zz2 (matmul 0%Z Z.add Z.mul true))
+  ; ("dot", zz2 (dot 0%Z Z.add Z.mul false)); ("dot_pinned", zz2 (dot 0%Z Z.add Z.mul true))
+  ].
+
 Definition table : list (string * (list arg -> out)) :=
   table_index ++ table_axis ++ table_broadcast ++ table_ew2 ++ table_ew1 ++ table_ops ++ table_reduce ++ table_sort
-  ++ table_join ++ table_reorder ++ table_edit ++ table_bits.
+  ++ table_join ++ table_reorder ++ table_edit ++ table_bits ++ table_linalg.
 
 Fixpoint lookup (name : string) (t : list (string * (list arg -> out))) : option (list arg -> out) :=
   match t with
